@@ -62,6 +62,7 @@ type liveAcc struct {
 	deleted bool
 	shadow  bool // a later import of the same address replaced it in the address index
 	mode    string
+	oldPw   []byte // the password replaced by the last successful ChangePassword
 }
 
 func init() { families["wallet"] = func() hx.Family { return &walletFam{} } }
@@ -320,8 +321,21 @@ func (f *walletFam) Exec(r *hx.Run, op []string) string {
 	case "chpw":
 		addr := f.realAddr(op[1])
 		oldPw, newPw := hx.UnHex(op[2]), hx.UnHex(op[3])
+		// the account is opened with the password about to be replaced first (whatever the client remembers about
+		// that open must not outlive the change)
+		f.cli.GetAccountByAddress(addr, oldPw)
 		if err := f.cli.ChangePassword(addr, oldPw, newPw); err != nil {
 			return errClass(err)
+		}
+		if !bytes.Equal(hmacKey(oldPw), hmacKey(newPw)) {
+			// on the SAME live client, before any open with the new password: the replaced password must be refused
+			if acc, err := f.cli.GetAccountByAddress(addr, oldPw); err == nil && acc != nil {
+				r.Viol("C43:old-password-still-opens-after-change:get", fmt.Sprintf("after ChangePassword the account %s still opens with the replaced password (GetAccountByAddress on the live client)", op[1]))
+			}
+			if err := f.cli.UnLockAccount(addr, 1, oldPw); err == nil {
+				f.cli.LockAccount(addr)
+				r.Viol("C43:old-password-still-opens-after-change:unlock", fmt.Sprintf("after ChangePassword the account %s can still be unlocked with the replaced password", op[1]))
+			}
 		}
 		if !bytes.Equal(oldPw, newPw) {
 			// the address index points at the latest entry with that address
@@ -333,6 +347,7 @@ func (f *walletFam) Exec(r *hx.Run, op []string) string {
 			}
 			if last != nil {
 				last.pw = append([]byte{}, newPw...)
+				last.oldPw = append([]byte{}, oldPw...)
 				last.mode = "gcm"
 			}
 		}
@@ -457,6 +472,11 @@ func (f *walletFam) auditOn(r *hx.Run, c *account.ClientImpl, where string) {
 		} else if !bytes.Equal(privBytes(acc.PrivateKey), privBytes(k.priv)) || acc.Address.ToBase58() != k.addr {
 			r.Viol("C43:wrong-key-after-reload:"+kind, fmt.Sprintf("account A%d (%s, %s client) decrypts to a different key pair / address", l.key, kind, where))
 		}
+		if l.oldPw != nil && !bytes.Equal(hmacKey(l.oldPw), hmacKey(l.pw)) {
+			if acc, err := c.GetAccountByAddress(k.addr, l.oldPw); err == nil && acc != nil {
+				r.Viol("C43:old-password-still-opens-after-change:"+where, fmt.Sprintf("account A%d (%s client) still opens with the password replaced by ChangePassword", l.key, where))
+			}
+		}
 		for _, wrong := range [][]byte{flipLast(l.pw), append([]byte("x"), l.pw...)} {
 			if bytes.Equal(hmacKey(wrong), hmacKey(l.pw)) {
 				continue
@@ -532,7 +552,7 @@ var keyKinds = []keyKind{
 func (f *walletFam) Gen(r *hx.Run) {
 	r.Rule("wallet histories on a temp file: every key kind (ECDSA P-224/256/384/521/secp256k1, SM2, Ed25519) created with NewAccount and imported (aes-256-gcm and legacy aes-256-ctr protected keys), default and low-security scrypt parameters, passwords empty/1 byte/unicode/invalid UTF-8/1500 bytes, labels empty/unicode/JSON-special/long, duplicate labels and duplicate addresses, wrong-password reads, delete/default/label/password/scheme changes, reload after every few ops, audit of the property on a re-opened file; distinct non-trivial = distinct (key kind, protection mode, scrypt parameters, op kinds used) of cases with at least one reload")
 	g := r.Rng
-	nCases := r.Pick(14, 220)
+	nCases := r.Pick(10, 200)
 	pws := func() []byte {
 		switch g.Intn(9) {
 		case 0:
@@ -668,6 +688,11 @@ func (f *walletFam) Gen(r *hx.Run) {
 					old = []byte("nope")
 				}
 				out := r.Do(fmt.Sprintf("chpw %s %s %s", ents[i].sym, hx.Hex(old), hx.Hex(np)))
+				if out == "ok" && !bytes.Equal(old, np) {
+					// the replaced password first, on the same live client, before any open with the new one
+					r.Do(fmt.Sprintf("get %s %s", ents[i].sym, hx.Hex(old)))
+					r.Do(fmt.Sprintf("get %s %s", ents[i].sym, hx.Hex(np)))
+				}
 				if out == "ok" {
 					for j := range ents {
 						if ents[j].sym == ents[i].sym {
@@ -702,6 +727,24 @@ func (f *walletFam) Gen(r *hx.Run) {
 				return r.Do("seclevel " + kind + " -")
 			}
 			return r.Do("seclevel " + kind + " " + strings.Join(p, ","))
+		}
+		if (c%2 == 1 || r.Thorough()) && len(ents) > 0 {
+			// a password change in every such history: open with the old password, change, then the old password
+			// first (must be refused), then the new one — all on the one live client
+			i := g.Intn(len(ents))
+			np := append([]byte("changed-"), pws()...)
+			r.Do(fmt.Sprintf("get %s %s", ents[i].sym, hx.Hex(ents[i].pw)))
+			if out := r.Do(fmt.Sprintf("chpw %s %s %s", ents[i].sym, hx.Hex(ents[i].pw), hx.Hex(np))); out == "ok" {
+				r.Do(fmt.Sprintf("get %s %s", ents[i].sym, hx.Hex(ents[i].pw)))
+				r.Do(fmt.Sprintf("get %s %s", ents[i].sym, hx.Hex(np)))
+				sym := ents[i].sym
+				for j := range ents {
+					if ents[j].sym == sym {
+						ents[j].pw = np
+					}
+				}
+				used["chpw"] = true
+			}
 		}
 		if c%2 == 0 || r.Thorough() {
 			if n := len(f.order); n >= 2 {
